@@ -31,7 +31,11 @@ HasHdr(hs, n, v) == \E i \in 1..Len(hs) : hs[i][3] = n /\ hs[i][2] = v
 Clauses(o, ev, o2, p) ==
     CASE ev.e = "app_start" /\ ev.sc.type = "websocket" ->
             IF Req(o, ev.app).known /\ HS(o, ev.app).domain /\ ~Valid(HS(o, ev.app))
-            THEN <<F("invalid-accepted", "application-started")>> ELSE <<>>
+            THEN <<F("invalid-accepted", "application-started")>>
+            \* a request that is not an opening handshake at all (another method, no Upgrade: websocket, no
+            \* Connection: upgrade) is plain HTTP: no WebSocket application may be started for it
+            ELSE IF Req(o, ev.app).known /\ ~HS(o, ev.app).domain /\ Req(o, ev.app).kind = "http"
+                 THEN <<F("invalid-accepted", "upgrade-outside-domain")>> ELSE <<>>
       [] ev.e = "app_recv" ->
             LET a == ev.app s == App(o, a) IN
             IF s.kind # "websocket" THEN <<>> ELSE
